@@ -266,6 +266,8 @@ def finding_key(spec, step, kind):
     st = spec['steps'][step]
     if kind == 23 and st['kind'] == 'verify':
         return 'tm-delay-overflow'
+    if kind == 16 and (spec['client']['tl_num'] >= 2 ** 63 or spec['client']['tl_den'] >= 2 ** 63):
+        return 'tm-trust-level-int64'
     return None
 
 
@@ -370,6 +372,11 @@ def check(run):
                                               % (pt, delay)):
                 known_seen += 1
                 continue
+        if key == 'tm-trust-level-int64' and run.known_finding(
+                key, 'key=tm-trust-level-int64 a configuration admitted by ClientState.Validate has trust level fields above MaxInt64; '
+                     'a non-adjacent header was accepted without the trust level of the trusted set having signed'):
+            known_seen += 1
+            continue
         if len(run.violations) >= 3:
             continue
         small = shrink(run.work, spec, 'monitor', k)
